@@ -136,6 +136,28 @@ func BigShape(r *rand.Rand, minRank, maxElems int) []int {
 	}
 }
 
+// LongSizes: extents around the thresholds at which an implementation might switch to a
+// different code path (blocked / pairwise / parallel loops): 128, 256, 512, 1024, 2048, 4096.
+var LongSizes = []int{127, 128, 129, 130, 131, 255, 256, 257, 258, 511, 512, 513, 1000, 1001, 1023, 1024, 1025, 2047, 2048, 2049, 4095, 4096, 4097}
+
+// LongShape: rank 1..maxRank with exactly one long dimension (from LongSizes, at most maxLong) and the others in 1..3.
+func LongShape(r *rand.Rand, maxRank, maxLong int) (shape []int, longDim int) {
+	for {
+		n := LongSizes[r.Intn(len(LongSizes))]
+		if n > maxLong {
+			continue
+		}
+		rank := 1 + r.Intn(maxRank)
+		shape = make([]int, rank)
+		for i := range shape {
+			shape[i] = 1 + r.Intn(3)
+		}
+		longDim = r.Intn(rank)
+		shape[longDim] = n
+		return shape, longDim
+	}
+}
+
 func shapeKey(s []int) string { return strings.ReplaceAll(fmt.Sprint(s), " ", ",") }
 
 func rankOf(s []int) int { return len(s) }
